@@ -316,6 +316,11 @@ func C16(tier string) int {
 				} else {
 					w1, w2 = c16WriteFor("vertex-gid", a), c16WriteFor("vertex-gid", a)
 					w2.Graph = "g2"
+					if a == "a" {
+						// the baseline of g2 already holds a vertex a with label Q: writing it with another label would be a
+						// relabel, whose stale label entry is C03's listed finding and not what this case is about
+						w2.Elem.Label = "Q"
+					}
 					op = gmodel.Op{Kind: "DelVertex", G: "g1", ID: a}
 				}
 				if via == "server" && a == "" {
